@@ -1,6 +1,7 @@
 import PdshVerif.Base.Hex
 import PdshVerif.Opt.Settings
 import PdshVerif.Opt.Spec
+import PdshVerif.Opt.Use
 import Driver.Util
 
 /-!
@@ -10,12 +11,17 @@ import Driver.Util
   `pdshmodel opt model <d4><d5><atoi><dopt><wuser><early>`
       pers=dsh|pdcp|rpdcp luser=HEX lmax=N prog=HEX avail=HEX,HEX,.. [modopts=HEX] env=NAMEHEX:VALHEX,.. argv=HEX,HEX,..
         -> "exit N"
-         | "ok <fanout> <ctmo> <utmo> <ruser> <rcmd|~> <misc|~> <path> q=<0|1> S=<0|1> k=<0|1> term=<0|1> mw=<A|B>"
+         | "ok <fanout> <ctmo> <utmo> <ruser> <rcmd|~> <misc|~> <path> q=<0|1> S=<0|1> k=<0|1> term=<0|1> mw=<A|B> z=<0|1>
+            next=<info|server|client|run|copy|interactive> cmd=<HEX|~> in=HEX,.. out=<HEX|~> users=HOSTHEX:USERHEX,..|!"
+            (`mainPlan`: main as a whole; `contacts`: the user every target is contacted with)
   `pdshmodel opt spec`
       pers=.. luser= lmax= prog= avail= dfr=HEX(default rcmd) st=0|1
       cf= ef= ct= et= cu= eu= cl= cR= eR= cM= eM= ce= ee=       (texts per setting: c* command line, e* environment)
       wt=HEX,.. wu=HEX,.. wm=0|1    (per-host transports / users given as prefixes of -w words; a malformed prefix)
       obs=rej:<diag>  |  obs=hang  |  obs=acc:<fanout>:<ctmo>:<utmo>:<ruser>:<rcmd>:<path>   [mw=HEX]
+      [uown=HEX] uobs=HEX          (a target that names the user `uown` itself was contacted as `uobs`)
+      peak=N                       (N commands were seen running at the same time; more targets than the fanout allows)
+      cut=0|1 short=N long=N       (a command running between `short` and `long` seconds was / was not cut short)
         -> "ok" | space-separated violated clauses
 -/
 namespace Driver.OptDrv
@@ -58,17 +64,34 @@ def optHex : Option Str → String
   | none => "~"
   | some s => Hex.encodeChars s
 
+def nextName : Next → String
+  | .info => "info"
+  | .pcpServer => "server"
+  | .pcpClient => "client"
+  | .run (some _) => "run"
+  | .run none => "copy"
+  | .interactive => "interactive"
+
+/-- `contacts` (Opt/Use.lean: the registry model of C09 on the tokens of this command line): host:user,... -/
+def usersText : Rcmd.Outcome → String
+  | .fatal => "!"
+  | .lines ls => ",".intercalate (ls.map fun l => s!"{Hex.encodeChars l.host}:{Hex.encodeChars l.user}")
+
 def stepModel (fx : Fixes) (line : String) : String :=
   let ws := Driver.words line
   match (kv ws "pers").bind parsePers, parseDefaults ws, parseEnv ((kv ws "env").getD ""),
         hexList ((kv ws "argv").getD "") with
   | some p, some d, some env, some argv =>
-    match effective fx d p env argv with
-    | .exit n => s!"exit {n}"
-    | .ok c =>
+    match mainPlan fx d p env argv with
+    | .error n => s!"exit {n}"
+    | .ok (c, nx) =>
+      let files := pcpFiles c.pcpClient (getopt (fullString d p) argv).2
       s!"ok {c.fanout} {c.connectTimeout} {c.commandTimeout} {Hex.encodeChars c.ruser} {optHex c.rcmdName} " ++
       s!"{optHex c.miscModules} {Hex.encodeChars c.remotePath} q={b01 c.infoOnly} S={b01 c.retRemoteRc} " ++
-      s!"k={b01 c.killOnFail} term={b01 (runTerminates c)} mw={String.ofList (miscWinner c)} z={b01 c.pcpServer}"
+      s!"k={b01 c.killOnFail} term={b01 (runTerminates c)} mw={String.ofList (miscWinner c)} z={b01 c.pcpServer} " ++
+      s!"next={nextName nx} cmd={optHex (assembleCmd (getopt (fullString d p) argv).2)} " ++
+      s!"in={",".intercalate (files.1.map Hex.encodeChars)} out={optHex files.2} " ++
+      s!"users={usersText (contacts d env (getopt (fullString d p) argv).1)}"
   | _, _, _, _ => "bad-op"
 
 def sources (ws : List String) (c e : String) : Spec.Sources :=
@@ -109,10 +132,20 @@ def stepSpec (line : String) : String :=
     let m := match kvHex ws "mw" with
       | some w => Spec.judgeMisc cfg w
       | none => []
+    -- the settings where they take effect
+    let u := match kvHex ws "uobs" with
+      | some o => Spec.judgeUser cfg (kvHex ws "uown") o
+      | none => []
+    let fu := match (kv ws "peak").bind String.toInt? with
+      | some pk => Spec.judgeFanoutUsed cfg pk
+      | none => []
+    let tu := match (kv ws "cut"), (kv ws "short").bind String.toInt?, (kv ws "long").bind String.toInt? with
+      | some ct, some sh, some lg => Spec.judgeTimeoutUsed cfg sh lg (ct = "1")
+      | _, _, _ => []
     match a, kv ws "obs" with
     | none, some _ => "bad-op"
     | _, _ =>
-      let all := a.getD [] ++ m
+      let all := a.getD [] ++ m ++ u ++ fu ++ tu
       if all = [] then "ok" else " ".intercalate all
   | _, _ => "bad-op"
 
